@@ -166,6 +166,10 @@ def gen_case(seed, idx, tier="quick"):
             if s:
                 colls.append(s)
                 break
+    if conditioned and len(colls) == 2 and colls[0]["genes"] and colls[1]["genes"] and rng.random() < 0.3:
+        # the same locus tag on one gene of each record (homologous chromosomes / two assemblies in one file): tags are
+        # still unique within every record
+        colls[1]["genes"][rng.randrange(len(colls[1]["genes"]))]["locus_tag"] = rng.choice(colls[0]["genes"])["locus_tag"]
     seeds = cfg["node_seeds"]
     a = rng.choice(seeds)
     b = rng.choice([s for s in seeds if s != a] or seeds)
